@@ -252,6 +252,40 @@ func (m FromZeroAmount) AfterScan(ctx *h.ScanCtx) []h.Violation {
 	return nil
 }
 
+// C05FaultScenarios: mixed groups scaling up with every get / update of the untaint loop failing
+// (a node whose untaint failed is not in service: the request must make up for it), and groups at
+// min_nodes with an over-age node while utilisation also demands several nodes.
+func C05FaultScenarios(tier string) []*h.Scenario {
+	var out []*h.Scenario
+	for u := 1; u <= 3; u++ {
+		for tn := 1; tn <= 3; tn++ {
+			for need := 1; need <= 3; need++ {
+				p := c05Case{T: 70, U: u, Tn: tn, Need: need, EndToEnd: true, C: 1000, M: 4 << 30}
+				s := c05Mixed(p)
+				s.Name = fmt.Sprintf("c05.mixed-faults.U%dT%dN%d", u, tn, need)
+				s.FaultOps = map[string]bool{sim.OpK8sGet: true, sim.OpK8sUpdate: true}
+				out = append(out, s)
+			}
+		}
+	}
+	for u := 1; u <= 3; u++ {
+		for need := 1; need <= 4; need++ {
+			p := c05Case{T: 70, U: u, Need: need, EndToEnd: true, C: 1000, M: 4 << 30}
+			s := c05Mixed(p)
+			s.Name = fmt.Sprintf("c05.max-age.U%dN%d", u, need)
+			s.Groups[0].Opts.MaxNodeAge = "1h"
+			s.Groups[0].Opts.MinNodes = u
+			inner := s.Init
+			s.Init = func(hh *h.Hist) {
+				inner(hh)
+				hh.W.Nodes[0].CreationTimestamp.Time = hh.W.Nodes[0].CreationTimestamp.Add(-36 * time.Hour)
+			}
+			out = append(out, s)
+		}
+	}
+	return out
+}
+
 func c05Grid(t *testing.T, tier string, shard, shards int, c *h.Collector) {
 	sizesC := []int64{1000, 1500, 2000, 3900, 7910, 16000}
 	sizesM := []int64{1000, 1 << 30, 16 << 30, 64 << 30, 256 << 30}
@@ -303,6 +337,18 @@ func c05Grid(t *testing.T, tier string, shard, shards int, c *h.Collector) {
 				}
 				if n == 0 {
 					c05Check(c, c05Case{N: 0, C: cc, M: mm, T: 70, ReqCPU: 12345, ReqMem: 1 << 20, NoCache: true})
+				}
+			}
+		}
+	}
+	// large clusters: hundreds of big nodes (memory totals beyond 2^46 bytes)
+	if shard == 0 {
+		for _, n := range []int{100, 400, 1000} {
+			for _, th := range []int{50, 70, 90} {
+				for _, pct := range []int64{86, 99, 120, 250} {
+					m := int64(256) << 30
+					c05Check(c, c05Case{N: n, C: 64000, M: m, T: th, ReqCPU: 1000, ReqMem: m / 100 * pct * int64(n)})
+					c05Check(c, c05Case{N: n, C: 64000, M: m, T: th, ReqCPU: 640 * pct * int64(n), ReqMem: 1 << 30})
 				}
 			}
 		}
@@ -407,12 +453,22 @@ func c05Replay(t *testing.T, raw []byte) []string {
 func init() {
 	register(&Check{
 		ID:    "C05",
-		Level: "exploration",
+		Level: "model_checking",
 		Rule: "bounded-exhaustive grid through the real percent and delta arithmetic: n 0..6 (12 thorough) equal nodes x node CPU sizes x memory sizes x thresholds 1..100,120,150,200 x every target n..n+10 with requests exactly on 100*R = T*N*size and +/-1 unit, CPU-bound, memory-bound and both, plus an interior sweep; " +
-			"end to end on the real controller: single scans of groups holding tainted, cordoned (odd-sized) and force-tainted nodes next to 1..4 untainted ones; two- and three-scan scale-from-zero histories (cached size from the first listed node, two list orders; the node size changing before the group drains; never having seen a node). " +
+			"end to end on the real controller: single scans of groups holding tainted, cordoned (odd-sized) and force-tainted nodes next to 1..4 untainted ones; two- and three-scan scale-from-zero histories (cached size from the first listed node, two list orders; the node size changing before the group drains; never having seen a node); mixed groups explored with every get / update of the untaint loop failing; groups at min_nodes with an over-age node and high utilisation; clusters of 100..1000 nodes of 256 GiB. " +
 			"non-trivial = cases where exact and float utilisation exceed the threshold; distinct = (n, sizes, threshold, requests)",
-		Grid:        c05Grid,
-		ReplayCase:  c05Replay,
+		Grid:            c05Grid,
+		ReplayCase:      c05Replay,
+		Scenarios:       C05FaultScenarios,
+		ShardByScenario: true,
+		Monitors:        func() []h.Monitor { return []h.Monitor{NewDecisions()} },
+		Bound: func(tier string) int {
+			if tier == "thorough" {
+				return 2
+			}
+			return 1
+		},
+		Nontrivial: seenKeys,
 		Assumptions: append([]string{"oracle: N_min = least N with 100*R_cpu <= T*N*c and 100*R_mem <= T*N*m in integer arithmetic; magnitudes beyond 12 nodes x 256 GiB are not covered (no random tier: the family is exhaustive enumeration)"}, commonAssumptions...),
 	})
 }
